@@ -23,6 +23,7 @@ import (
 	"net/http"
 	"net/http/httptest"
 	"os"
+	"runtime"
 	"runtime/debug"
 	"sort"
 	"strconv"
@@ -106,7 +107,7 @@ func c12Compact(max int, h []c12Ev) string {
 		if e.K == c12Tick {
 			b = append(b, 'z')
 		} else {
-			b = append(b, byte('A'+int(e.K)*c12NR+int(e.P)))
+			b = append(b, byte('A'+int(e.K)*c12NRmax+int(e.P)))
 		}
 	}
 	return string(b)
@@ -146,21 +147,25 @@ const (
 	c12OutLeft // left the session       -> FAILED or DONE
 )
 
-const c12NR = 3 // receivers a, b, c
+const c12NR = 3    // receivers a, b, c of the enumerated / sequential histories
+const c12NRmax = 5 // receivers a..e of the concurrent-delivery scenarios (c12_conc.go)
 
 type c12Model struct {
 	Max     int
 	Seen    int
-	Member  [c12NR]bool
-	Cls     [c12NR]uint8
-	Out     [c12NR]uint8
-	Q       [c12NR]int8
+	Member  [c12NRmax]bool
+	Cls     [c12NRmax]uint8
+	Out     [c12NRmax]uint8
+	Q       [c12NRmax]int8
 	QN      int
-	Stale   [c12NR]uint8 // transfers still unwinding after their context was cancelled
-	Reacc   [c12NR]bool  // receiver accepted again while such a transfer is still unwinding
+	Stale   [c12NRmax]uint8 // transfers still unwinding after their context was cancelled
+	Reacc   [c12NRmax]bool  // receiver accepted again while such a transfer is still unwinding
 	Ticks   int
-	Starts  [c12NR]int
+	Starts  [c12NRmax]int
 	LiveCnt int
+	// Auto: the stub transfers unwind on their own when their context is cancelled
+	// (stub mode real-like): a leave leaves no cancelled transfer behind to be returned by S/s
+	Auto bool
 }
 
 type c12Alphabet struct {
@@ -168,6 +173,7 @@ type c12Alphabet struct {
 	Rejoin    bool // include 'R' (hostile: duplicate join)
 	Avoid     bool // keep clear of the two known defect triggers (generator choice for long random histories)
 	AnyJoinID bool // do not insist on canonical introduction order (used by the shrinker)
+	NR        int  // number of receivers (0 = c12NR)
 }
 
 func (m *c12Model) inQueue(p int8) bool {
@@ -181,7 +187,11 @@ func (m *c12Model) inQueue(p int8) bool {
 
 func (m *c12Model) enabled(al c12Alphabet, buf []c12Ev) []c12Ev {
 	out := buf[:0]
-	for p := int8(0); p < c12NR; p++ {
+	nr := int8(c12NR)
+	if al.NR > 0 {
+		nr = int8(al.NR)
+	}
+	for p := int8(0); p < nr; p++ {
 		if !m.Member[p] {
 			if int(p) <= m.Seen || al.AnyJoinID {
 				out = append(out, c12Ev{c12Join, p})
@@ -271,7 +281,9 @@ func (m c12Model) apply(e c12Ev, ignoreReaccept bool) c12Model {
 		m.Member[p] = false
 		switch m.Cls[p] {
 		case c12Xfer:
-			m.Stale[p]++
+			if !m.Auto {
+				m.Stale[p]++
+			}
 			m.LiveCnt--
 			m.Out[p] = c12OutLeft
 		case c12Queued:
@@ -340,6 +352,10 @@ type c12Obs struct {
 	TS        map[string]int    `json:"transfer_start_msgs"`
 	LastTQPos map[string]int    `json:"last_transfer_queued_position,omitempty"`
 	Live      int               `json:"live"`
+	// counted by the stub transfer itself at each of its starts (transients included)
+	MaxLiveAtStart int      `json:"max_live_transfers_counted_at_a_stub_start"`
+	Overshoot      []c12Run `json:"running_set_at_first_start_above_max,omitempty"`
+	ClosersCalled  int      `json:"connection_closers_invoked"`
 }
 
 type c12Viol struct {
@@ -410,6 +426,9 @@ func c12Check(m *c12Model, o *c12Obs) []c12Viol {
 	if o.Live > m.Max {
 		add("running-exceeds-max", "", "%d stub transfers run with a live context, max-receivers is %d", o.Live, m.Max)
 	}
+	if len(o.Overshoot) > m.Max {
+		add("running-exceeds-max", "", "a stub transfer found %d transfer functions running with a live context when it started (itself included), max-receivers is %d: %v", len(o.Overshoot), m.Max, o.Overshoot)
+	}
 	for _, r := range o.BadStarts {
 		add("start-with-cancelled-context", r.Peer, "transfer #%d for %s was started with an already-cancelled context", r.Seq, r.Peer)
 	}
@@ -458,7 +477,7 @@ func c12Check(m *c12Model, o *c12Obs) []c12Viol {
 	for _, n := range o.Queue {
 		if c12In(mq, n) == 0 {
 			sameSet = false
-			if p := int(n[0] - 'a'); p >= 0 && p < c12NR && m.Member[p] {
+			if p := int(n[0] - 'a'); p >= 0 && p < c12NRmax && m.Member[p] {
 				add("queue-extra", n, "%s is in the queue %v but should not be (expected %v)", n, o.Queue, mq)
 			}
 		}
@@ -577,6 +596,9 @@ func c12Recorder() *httptest.Server {
 func c12InstallHooks() {
 	verifhook.Set("sender.runTransfer.exit", func(ev verifhook.Event) {
 		if in, _ := c12InstOf(ev.S); in != nil {
+			if g := in.gate.Load(); g != nil {
+				g.atExit()
+			}
 			in.mu.Lock()
 			in.exits++
 			in.mu.Unlock()
@@ -588,6 +610,9 @@ func c12InstallHooks() {
 			in.mu.Lock()
 			in.returned++
 			in.mu.Unlock()
+			if g := in.gate.Load(); g != nil {
+				g.atReturned() // concurrent-delivery bursts park returning transfers here (c12_conc.go)
+			}
 		}
 	})
 }
@@ -601,12 +626,51 @@ type c12Inv struct {
 	startCancelled bool
 	seq            int
 	told           bool
+	auto           bool  // returned on its own because its context was cancelled (stub mode real-like)
+	closer         bool  // registered a connection closer through setTransferCloser
+	closerCalls    int32 // atomic: how often the scheduler invoked that closer
 	ret            chan error
+}
+
+// c12Mode is the behaviour of the stub transfer function (part of the input class of a history).
+type c12Mode struct {
+	// Closer: 0 = the stub never registers a connection closer (a transfer that is still
+	// gathering / probing); 1 = every stub registers one before it reports its start (a transfer
+	// past connect_ok, like runICEQUICTransfer after setTransferCloser); 2 = every second one does
+	Closer uint8
+	// Auto: the stub returns ctx.Err() on its own as soon as its context is cancelled (as the
+	// real transfer function does) instead of unwinding only when told
+	Auto bool
+	// Self: the stub finishes by itself after a few yields (alternately nil / an error, ctx.Err()
+	// when cancelled); used by the stress part, where nobody tells transfers when to end
+	Self bool
+}
+
+func (md c12Mode) String() string {
+	switch {
+	case md.Self:
+		return "self-finishing"
+	case md.Auto:
+		return "real-like"
+	case md.Closer == 1:
+		return "closer"
+	case md.Closer == 2:
+		return "closer-mixed"
+	}
+	return "told"
+}
+
+func (md c12Mode) keySuffix() string {
+	if md == (c12Mode{}) {
+		return ""
+	}
+	return ":stub=" + md.String()
 }
 
 type c12Inst struct {
 	id     string
 	max    int
+	mode   c12Mode
 	vs     *app.VerifSender
 	conn   *wsclient.Conn
 	ctx    context.Context
@@ -630,6 +694,19 @@ type c12Inst struct {
 	offers     int
 	markerSent int
 	markerSeen int
+
+	// observed at the stub itself
+	startSeq       int32    // atomic: stub invocations so far (closer-mixed decision)
+	maxLiveAtStart int      // largest number of stub transfers running with a live context, counted at a stub start (incl. the starting one)
+	overshoot      []c12Run // the running set at the first stub start that found more than max
+	closerRegs     int
+	clockPerturb   int32 // atomic, see c12_conc.go
+	clockWaiters   int32 // atomic
+	clockArrivals  int32 // atomic
+	stressSent     int64 // atomic: envelopes delivered by the stress stream (c12_stress.go)
+	burstEnv0      []int64
+	burstEnv1      []int64
+	gate           atomic.Pointer[c12Gate]
 }
 
 var c12Base = time.Date(2026, 1, 1, 0, 0, 0, 0, time.UTC)
@@ -641,13 +718,20 @@ const c12Workers = 32
 
 var c12Logger = slog.New(slog.NewTextHandler(io.Discard, &slog.HandlerOptions{Level: slog.Level(100)}))
 
-func c12NewInst(conn *wsclient.Conn, max int) *c12Inst {
-	in := &c12Inst{id: "s" + strconv.FormatUint(atomic.AddUint64(&c12InstSeq, 1), 10), max: max, conn: conn,
+func c12NewInst(conn *wsclient.Conn, max int) *c12Inst { return c12NewInstMode(conn, max, c12Mode{}) }
+
+func c12NewInstMode(conn *wsclient.Conn, max int, mode c12Mode) *c12Inst {
+	in := &c12Inst{id: "s" + strconv.FormatUint(atomic.AddUint64(&c12InstSeq, 1), 10), max: max, mode: mode, conn: conn,
 		note: make(chan struct{}, 1), tsByPeer: map[string]int{}, tqLastPos: map[string]int{}}
 	in.ctx, in.cancel = context.WithCancel(context.Background())
 	in.vs = app.VerifNewSnapshotSender(app.VerifSenderOpts{
 		Logger:       c12Logger,
-		Now:          func() time.Time { return c12Base.Add(time.Duration(atomic.LoadInt64(&in.clock))) },
+		Now: func() time.Time {
+			if cp := atomic.LoadInt32(&in.clockPerturb); cp != 0 {
+				in.perturbClock(cp)
+			}
+			return c12Base.Add(time.Duration(atomic.LoadInt64(&in.clock)))
+		},
 		MaxReceivers: max,
 		ReceiverTTL:  10 * time.Minute,
 		TransferFn:   in.transferFn,
@@ -697,6 +781,13 @@ func (in *c12Inst) transferFn(ctx context.Context, peer string) error {
 		short = peer[i+1:]
 	}
 	inv := &c12Inv{peer: short, ctx: ctx, startCancelled: ctx.Err() != nil, ret: make(chan error, 1)}
+	// a transfer past connect_ok has registered its connection closer; done before the start is
+	// reported so that the next event of the history finds it in place
+	nth := atomic.AddInt32(&in.startSeq, 1)
+	if in.mode.Auto || in.mode.Closer == 1 || ((in.mode.Closer == 2 || in.mode.Self) && nth%2 == 1) {
+		inv.closer = true
+		in.vs.SetTransferCloser(peer, func() { atomic.AddInt32(&inv.closerCalls, 1) })
+	}
 	in.mu.Lock()
 	if in.dead {
 		in.mu.Unlock()
@@ -704,9 +795,77 @@ func (in *c12Inst) transferFn(ctx context.Context, peer string) error {
 	}
 	inv.seq = len(in.invs)
 	in.invs = append(in.invs, inv)
+	if inv.closer {
+		in.closerRegs++
+	}
+	// monitor at the stub: how many transfer functions run with a live context right now
+	live := 0
+	for _, v := range in.invs {
+		if !v.told && v.ctx.Err() == nil {
+			live++
+		}
+	}
+	if live > in.maxLiveAtStart {
+		in.maxLiveAtStart = live
+		if live > in.max && in.overshoot == nil {
+			for _, v := range in.invs {
+				if !v.told && v.ctx.Err() == nil {
+					in.overshoot = append(in.overshoot, c12Run{Peer: v.peer, Live: true, Seq: v.seq})
+				}
+			}
+		}
+	}
 	in.mu.Unlock()
 	in.notify()
-	return <-inv.ret
+	if in.mode.Self {
+		for k := int32(0); k < nth%4; k++ {
+			runtime.Gosched()
+		}
+		in.mu.Lock()
+		inv.told = true
+		in.told++
+		in.mu.Unlock()
+		switch {
+		case ctx.Err() != nil:
+			return ctx.Err()
+		case nth%5 == 4:
+			return errors.New("stub transfer failed")
+		}
+		return nil
+	}
+	if !in.mode.Auto {
+		return <-inv.ret
+	}
+	select {
+	case err := <-inv.ret:
+		return err
+	case <-ctx.Done():
+		in.mu.Lock()
+		if inv.told { // told to return at the same moment: the told value wins
+			in.mu.Unlock()
+			return <-inv.ret
+		}
+		inv.told, inv.auto = true, true
+		in.told++
+		in.mu.Unlock()
+		in.notify()
+		return ctx.Err()
+	}
+}
+
+// mustHaveExited is the number of stub transfers whose runTransfer has to be over before the
+// state is judged: those told to return and, in real-like mode, those whose context was cancelled.
+func (in *c12Inst) mustHaveExited() int {
+	if !in.mode.Auto {
+		return in.told
+	}
+	n := 0
+	for _, v := range in.invs {
+		if v.told || v.ctx.Err() != nil {
+			n++
+		}
+	}
+	return n
 }
 
 func (in *c12Inst) onMessage(env protocol.Envelope, short string) {
@@ -817,7 +976,7 @@ func (in *c12Inst) do(e c12Ev) bool {
 // recording endpoint (marker round trip through the same FIFO connection) and
 // every launched runTransfer goroutine has reported its start to the stub.
 func (in *c12Inst) quiesce() string {
-	if !in.wait(func() bool { return in.exits >= in.told }, c12Watchdog) {
+	if !in.wait(func() bool { return in.exits >= in.mustHaveExited() }, c12Watchdog) {
 		return "sender.runTransfer.exit hits stayed below the number of transfers told to return"
 	}
 	in.mu.Lock()
@@ -836,6 +995,9 @@ func (in *c12Inst) quiesce() string {
 	}
 	// slots whose goroutine has not reached the stub yet (only possible when no
 	// TransferStart was sent for the launch): bounded grace, then the oracle decides
+	if in.mode.Self {
+		return "" // transfers come and go on their own: the caller loops until a round sees no new start
+	}
 	snap := in.vs.Snapshot()
 	in.wait(func() bool {
 		for _, a := range snap.Active {
@@ -889,6 +1051,13 @@ func (in *c12Inst) observe(sinceSeq int) c12Obs {
 			}
 		}
 	}
+	for _, inv := range in.invs {
+		if atomic.LoadInt32(&inv.closerCalls) > 0 {
+			o.ClosersCalled++
+		}
+	}
+	o.MaxLiveAtStart = in.maxLiveAtStart
+	o.Overshoot = append([]c12Run{}, in.overshoot...)
 	for k, v := range in.tsByPeer {
 		o.TS[k] = v
 	}
@@ -930,6 +1099,10 @@ type c12Step struct {
 }
 
 type c12Result struct {
+	Mode          c12Mode
+	Closers       int // stub transfers that registered a connection closer
+	ClosersCalled int // ... whose closer the scheduler invoked
+	AutoRet       int // stub transfers that unwound on their own after cancellation
 	Max       int
 	Hist      []c12Ev
 	FailAt    int // length of the first refuting prefix (0 = none)
@@ -970,6 +1143,7 @@ func (m *c12Model) String() string {
 type c12Worker struct {
 	conn *wsclient.Conn
 	url  string
+	mode c12Mode // stub behaviour of the histories run through this worker (set by whoever holds the worker)
 }
 
 // run drives one history. cont=true keeps going after a refuting prefix (probe mode).
@@ -979,7 +1153,7 @@ func (w *c12Worker) run(max int, hist []c12Ev, cont, trace bool) c12Result {
 	var r c12Result
 	for attempt := 0; attempt < 3; attempt++ {
 		if atomic.LoadInt64(&c12WatchdogRetries) > c12WatchdogBudget {
-			return c12Result{Max: max, Hist: hist, Inconcl: "exploration abandoned: quiescence watchdog fired too often (stalled machine or a sender that no longer settles)"}
+			return c12Result{Max: max, Hist: hist, Mode: w.mode, Inconcl: "exploration abandoned: quiescence watchdog fired too often (stalled machine or a sender that no longer settles)"}
 		}
 		r = w.runOnce(max, hist, cont, trace)
 		if r.Inconcl == "" {
@@ -1008,10 +1182,10 @@ var c12WatchdogRetries int64
 const c12WatchdogBudget = 64
 
 func (w *c12Worker) runOnce(max int, hist []c12Ev, cont, trace bool) c12Result {
-	res := c12Result{Max: max, Hist: hist}
-	in := c12NewInst(w.conn, max)
+	res := c12Result{Max: max, Hist: hist, Mode: w.mode}
+	in := c12NewInstMode(w.conn, max, w.mode)
 	defer in.teardown()
-	m := c12Model{Max: max}
+	m := c12Model{Max: max, Auto: w.mode.Auto}
 	seenInvs := 0
 	for i, e := range hist {
 		if !in.do(e) {
@@ -1063,6 +1237,18 @@ func (w *c12Worker) runOnce(max int, hist []c12Ev, cont, trace bool) c12Result {
 	in.mu.Lock()
 	res.Starts, res.TS, res.TQ, res.Offers = len(in.invs), in.tsTotal, in.tqTotal, in.offers
 	res.TSBad, res.TQBad, res.Exits = in.tsBadField, in.tqBadMax, in.exits
+	res.Closers = in.closerRegs
+	for _, inv := range in.invs {
+		if atomic.LoadInt32(&inv.closerCalls) > 0 {
+			res.ClosersCalled++
+		}
+		if inv.auto {
+			res.AutoRet++
+		}
+	}
+	if in.maxLiveAtStart > res.MaxLive {
+		res.MaxLive = in.maxLiveAtStart
+	}
 	in.mu.Unlock()
 	return res
 }
@@ -1071,6 +1257,7 @@ func (w *c12Worker) runOnce(max int, hist []c12Ev, cont, trace bool) c12Result {
 // exploration
 
 type c12Failure struct {
+	Mode   c12Mode
 	Max    int
 	Prefix []c12Ev
 	Kind   string
@@ -1085,15 +1272,19 @@ type c12Explorer struct {
 	runs, events, starts, ts, tq, offers, exits int64
 	pruned, truncated, tqStale, tsBad, tqBad    int64
 	shrinkRuns                                  int64
+	closers, closersCalled, autoRet             int64
 	maxLive                                     [4]int32
 
 	mu    sync.Mutex
 	fails map[string]*c12Failure
 }
 
-func (x *c12Explorer) with(fn func(w *c12Worker)) {
+func (x *c12Explorer) with(fn func(w *c12Worker)) { x.withMode(c12Mode{}, fn) }
+
+func (x *c12Explorer) withMode(mode c12Mode, fn func(w *c12Worker)) {
 	w := <-x.pool
-	defer func() { x.pool <- w }()
+	w.mode = mode
+	defer func() { w.mode = c12Mode{}; x.pool <- w }()
 	fn(w)
 }
 
@@ -1111,6 +1302,9 @@ func (x *c12Explorer) account(r *c12Result, source string) {
 	atomic.AddInt64(&x.tqStale, int64(r.TQStale))
 	atomic.AddInt64(&x.tsBad, int64(r.TSBad))
 	atomic.AddInt64(&x.tqBad, int64(r.TQBad))
+	atomic.AddInt64(&x.closers, int64(r.Closers))
+	atomic.AddInt64(&x.closersCalled, int64(r.ClosersCalled))
+	atomic.AddInt64(&x.autoRet, int64(r.AutoRet))
 	if r.Truncated {
 		atomic.AddInt64(&x.truncated, 1)
 	}
@@ -1132,7 +1326,7 @@ func (x *c12Explorer) account(r *c12Result, source string) {
 		} else if r.Executed < len(done) {
 			done = done[:r.Executed]
 		}
-		e.R.Distinct(c12Compact(r.Max, done))
+		e.R.Distinct(c12Compact(r.Max, done) + r.Mode.keySuffix())
 	}
 	if r.FailAt > 0 {
 		pre := r.Hist[:r.FailAt]
@@ -1143,9 +1337,9 @@ func (x *c12Explorer) account(r *c12Result, source string) {
 		}
 		x.mu.Lock()
 		for _, k := range report {
-			key := fmt.Sprintf("%d:%s:%s", r.Max, c12HistStr(pre, ""), k)
+			key := fmt.Sprintf("%d:%s:%s%s", r.Max, c12HistStr(pre, ""), k, r.Mode.keySuffix())
 			if _, ok := x.fails[key]; !ok {
-				x.fails[key] = &c12Failure{Max: r.Max, Prefix: append([]c12Ev{}, pre...), Kind: k, Res: *r, Source: source}
+				x.fails[key] = &c12Failure{Mode: r.Mode, Max: r.Max, Prefix: append([]c12Ev{}, pre...), Kind: k, Res: *r, Source: source}
 			}
 		}
 		x.mu.Unlock()
@@ -1156,6 +1350,10 @@ func (x *c12Explorer) account(r *c12Result, source string) {
 // prefixes are all the shorter ones) up to receiver renaming; a history is cut
 // at its first refuting prefix and that prefix is not extended further.
 func (x *c12Explorer) exhaustive(max, L int) (leaves int64) {
+	return x.exhaustiveMode(max, L, c12Mode{})
+}
+
+func (x *c12Explorer) exhaustiveMode(max, L int, mode c12Mode) (leaves int64) {
 	al := c12Alphabet{}
 	type unit struct {
 		m c12Model
@@ -1177,11 +1375,14 @@ func (x *c12Explorer) exhaustive(max, L int) (leaves int64) {
 			gen(m.apply(e, false), append(h, e))
 		}
 	}
-	gen(c12Model{Max: max}, nil)
+	gen(c12Model{Max: max, Auto: mode.Auto}, nil)
 	src := fmt.Sprintf("exhaustive-max%d-len%d", max, L)
+	if mode != (c12Mode{}) {
+		src = fmt.Sprintf("exhaustive-stub-%s-max%d-len%d", mode, max, L)
+	}
 	var total int64
 	vk.ParallelDo(len(units), c12Workers, func(i int) {
-		x.with(func(w *c12Worker) {
+		x.withMode(mode, func(w *c12Worker) {
 			var dfs func(m c12Model, h []c12Ev) int
 			dfs = func(m c12Model, h []c12Ev) int {
 				if len(h) == L {
@@ -1212,6 +1413,7 @@ type c12Case struct {
 	Max   int
 	Hist  []c12Ev
 	Class string
+	Mode  c12Mode
 }
 
 var c12Weights = [...]int{c12Join: 3, c12Accept: 4, c12Leave: 2, c12OK: 2, c12Fail: 1, c12Stale: 2, c12StaleOK: 1, c12Tick: 1, c12Rejoin: 1}
@@ -1247,20 +1449,31 @@ func (x *c12Explorer) shrink(w *c12Worker, f *c12Failure) (min []c12Ev, last c12
 	cur := append([]c12Ev{}, f.Prefix...)
 	last = f.Res
 	al := c12Alphabet{StaleOK: true, Rejoin: true, AnyJoinID: true}
+	w.mode = f.Mode
+	defer func() { w.mode = c12Mode{} }()
+	// with stubs that unwind on their own, the scheduler is entered from two goroutines
+	// at once after a leave: a failure there depends on the schedule, so a candidate is
+	// given several runs before it is taken to pass
+	reps := 1
+	if f.Mode.Auto {
+		reps = 40
+	}
 	try := func(cand []c12Ev) bool {
-		m := c12Model{Max: f.Max}
+		m := c12Model{Max: f.Max, Auto: f.Mode.Auto}
 		for _, e := range cand {
 			if !m.isEnabled(al, e) {
 				return false
 			}
 			m = m.apply(e, false)
 		}
-		r := w.run(f.Max, cand, false, false)
-		atomic.AddInt64(&x.shrinkRuns, 1)
-		if r.Inconcl == "" && r.FailAt > 0 && c12Has(r.Viols, f.Kind) {
-			cur = append([]c12Ev{}, cand[:r.FailAt]...)
-			last = r
-			return true
+		for k := 0; k < reps; k++ {
+			r := w.run(f.Max, cand, false, false)
+			atomic.AddInt64(&x.shrinkRuns, 1)
+			if r.Inconcl == "" && r.FailAt > 0 && c12Has(r.Viols, f.Kind) {
+				cur = append([]c12Ev{}, cand[:r.FailAt]...)
+				last = r
+				return true
+			}
 		}
 		return false
 	}
@@ -1549,10 +1762,12 @@ func runC12(e *Env) {
 			continue
 		}
 		seen[k] = true
-		cases = append(cases, c12Case{Max: max, Hist: h, Class: class})
+		// the stub transfers of a third of the random histories register a connection closer
+		// (all of them / every second one), as a transfer past connect_ok does
+		cases = append(cases, c12Case{Max: max, Hist: h, Class: class, Mode: c12Mode{Closer: uint8((i / 10) % 3)}})
 	}
 	vk.ParallelDo(len(cases), c12Workers, func(i int) {
-		x.with(func(w *c12Worker) {
+		x.withMode(cases[i].Mode, func(w *c12Worker) {
 			c := cases[i]
 			trace := i < 6
 			r := w.run(c.Max, c.Hist, false, trace)
@@ -1570,6 +1785,57 @@ func runC12(e *Env) {
 	})
 	vk.Logf("random: %d histories of length %d (%.1fs)", len(cases), rlen, time.Since(t0).Seconds())
 
+	// 3b. the same bounded enumeration with stub transfers that behave like a transfer past
+	// connect_ok: "closer" registers a connection closer through setTransferCloser before it
+	// reports its start; "real-like" does that and also unwinds on its own as soon as its context
+	// is cancelled (so a leave of a served receiver makes the read loop and the unwinding
+	// transfer goroutine enter the scheduler at the same time)
+	type mbound struct {
+		Mode     c12Mode
+		Max, Len int
+	}
+	var mbounds []mbound
+	for _, md := range []c12Mode{{Closer: 1}, {Auto: true}} {
+		for _, b := range bounds {
+			l := b.Len - 1
+			if e.Thorough() && !e.Race && b.Len == 9 {
+				continue
+			}
+			if e.Thorough() && !e.Race {
+				l = 7
+			}
+			mbounds = append(mbounds, mbound{md, b.Max, l})
+		}
+	}
+	exhMode := map[string]int64{}
+	for _, b := range mbounds {
+		n := x.exhaustiveMode(b.Max, b.Len, b.Mode)
+		exhMode[fmt.Sprintf("stub-%s-max%d-len%d", b.Mode, b.Max, b.Len)] = n
+	}
+	vk.Logf("stub-mode enumerations: %v (%.1fs)", exhMode, time.Since(t0).Seconds())
+
+	// 3c. concurrent deliveries (c12_conc.go)
+	nConc, concReps := 6000, 12
+	if e.Thorough() {
+		nConc, concReps = 60000, 120
+	}
+	if e.Race {
+		nConc, concReps = nConc/3, concReps/3
+	}
+	cst := x.concurrent(rng, nConc, concReps)
+	vk.Logf("concurrent: %d histories, %d bursts, %d fully overlapped (%.1fs)", cst.Cases, cst.Bursts, cst.Overlapped, time.Since(t0).Seconds())
+
+	// 3d. stress streams (c12_stress.go)
+	nStreams, nEnv := 192, 4000
+	if e.Thorough() {
+		nStreams, nEnv = 1920, 4000
+	}
+	if e.Race {
+		nStreams /= 8 // the stream is CPU-bound and about ten times slower under the race detector
+	}
+	sst := x.stress(rng, nStreams, nEnv)
+	vk.Logf("stress: %d streams, %d envelopes, %d transfer starts (%.1fs)", sst.Streams, sst.Envelopes, sst.Starts, time.Since(t0).Seconds())
+
 	// 4. refuting prefixes: shrink, key by the minimal shape, report
 	var fl []*c12Failure
 	for _, f := range x.fails {
@@ -1584,6 +1850,7 @@ func runC12(e *Env) {
 	byKey := map[string]int{}
 	minimal := map[string]map[string]int{}
 	type minRec struct {
+		Mode       c12Mode
 		Max        int
 		Kind       string
 		Min        []c12Ev
@@ -1608,7 +1875,7 @@ func runC12(e *Env) {
 		}
 		e.R.Violate(mr.Key,
 			fmt.Sprintf("max-receivers=%d, minimal history %s (%s): %s", f.Max, minStr, mr.Class, strings.Join(what, "; ")),
-			map[string]any{"max": f.Max, "minimal_history": minStr, "found_in": c12HistStr(f.Prefix, "."), "source": f.Source, "kind": f.Kind},
+			map[string]any{"max": f.Max, "minimal_history": minStr, "found_in": c12HistStr(f.Prefix, "."), "source": f.Source, "kind": f.Kind, "stub_mode": f.Mode.String()},
 			map[string]any{"violations": mr.Last.Viols, "observed": mr.Last.Obs, "model_expects": mr.Last.ModelStr, "class": mr.Class})
 	}
 	// shortest first, one length at a time: a refuting prefix that contains an
@@ -1623,7 +1890,7 @@ func runC12(e *Env) {
 		for _, f := range fl[lo:hi] {
 			done := false
 			for _, mr := range minima {
-				if mr.Max == f.Max && mr.Kind == f.Kind && c12Explains(mr.Min, f.Prefix) {
+				if mr.Mode == f.Mode && mr.Max == f.Max && mr.Kind == f.Kind && c12Explains(mr.Min, f.Prefix) {
 					report(f, mr)
 					explained++
 					done = true
@@ -1640,14 +1907,18 @@ func runC12(e *Env) {
 				f := todo[i]
 				min, last := x.shrink(w, f)
 				key, class := c12Key(f.Max, min, f.Kind, last.Viols)
-				found[i] = minRec{Max: f.Max, Kind: f.Kind, Min: c12Canon(min), Key: key, Class: class, Last: last}
+				if f.Mode != (c12Mode{}) {
+					key += f.Mode.keySuffix()
+					class += "; stub transfers in mode " + f.Mode.String()
+				}
+				found[i] = minRec{Mode: f.Mode, Max: f.Max, Kind: f.Kind, Min: c12Canon(min), Key: key, Class: class, Last: last}
 				report(f, found[i])
 			})
 		})
 		for _, mr := range found {
 			dup := false
 			for _, o := range minima {
-				if o.Max == mr.Max && o.Kind == mr.Kind && c12HistStr(o.Min, "") == c12HistStr(mr.Min, "") {
+				if o.Mode == mr.Mode && o.Max == mr.Max && o.Kind == mr.Kind && c12HistStr(o.Min, "") == c12HistStr(mr.Min, "") {
 					dup = true
 				}
 			}
@@ -1657,6 +1928,7 @@ func runC12(e *Env) {
 		}
 		lo = hi
 	}
+	x.reportConc(cst)
 	e.R.SetExtra("refuting_prefixes_attributed_to_an_established_minimal_history", explained)
 	e.R.SetExtra("refuting_prefixes_shrunk_by_rerunning", len(fl)-explained)
 	keyMin := map[string][]string{}
@@ -1675,7 +1947,7 @@ func runC12(e *Env) {
 		bs = append(bs, fmt.Sprintf("max-receivers=%d: every history of length %d (and so every shorter one)", b.Max, b.Len))
 	}
 	e.R.SetExtra("exhaustive_bound", strings.Join(bs, "; ")+"; over events J A L K F S T, receivers {a,b,c} up to renaming, membership-consistent; a history is cut at its first refuting prefix and that prefix is not extended")
-	e.R.Rule = "histories over receivers {a,b,c} of J(oin) A(ccept, repeatable) L(eave) K(transfer returns nil) F(transfer returns error) S/s(transfer whose context was cancelled returns late with error/nil) T(clock +6 min and one idle-cleanup tick, TTL 10 min), membership-consistent (join only for non-members, accept/leave only for members, returns only for running transfers), for max-receivers 1..3, each on a fresh real SnapshotSender driven through handleEnvelope/cleanup with a stub transfer function and a real wsclient.Conn to a recording endpoint; after EVERY event: quiescence by sender.runTransfer.exit hit count + marker round trip + stub start count, then comparison with the reference model. Exhaustive part (" + strings.Join(bs, "; ") + "): every such history up to receiver renaming; a history is cut at its first refuting prefix, which is not extended. Random part: weighted random walks (classes free / avoid-known / duplicate-join, the last adds R = join of a receiver that is already a member). A history counts as distinct non-trivial when it reached quiescence after every executed event and started >= 1 transfer; distinct by (max, event string up to the cut)."
+	e.R.Rule = "histories over receivers {a,b,c} of J(oin) A(ccept, repeatable) L(eave) K(transfer returns nil) F(transfer returns error) S/s(transfer whose context was cancelled returns late with error/nil) T(clock +6 min and one idle-cleanup tick, TTL 10 min), membership-consistent (join only for non-members, accept/leave only for members, returns only for running transfers), for max-receivers 1..3, each on a fresh real SnapshotSender driven through handleEnvelope/cleanup with a stub transfer function and a real wsclient.Conn to a recording endpoint; after EVERY event: quiescence by sender.runTransfer.exit hit count + marker round trip + stub start count, then comparison with the reference model. Exhaustive part (" + strings.Join(bs, "; ") + "): every such history up to receiver renaming; a history is cut at its first refuting prefix, which is not extended. Random part: weighted random walks (classes free / avoid-known / duplicate-join, the last adds R = join of a receiver that is already a member). A history counts as distinct non-trivial when it reached quiescence after every executed event and started >= 1 transfer; distinct by (max, event string up to the cut, stub mode). Stub modes: told (default; no connection closer, returns when told), closer / closer-mixed (registers a closer through setTransferCloser before reporting its start), real-like (closer + returns by itself once cancelled); the enumeration is repeated one event shorter in modes closer and real-like. Concurrent part: histories over up to five receivers whose steps are single events or bursts (<= 1 envelope, <= 1 cleanup tick, transfer returns; one goroutine each, released together), random and a directed full-house family; a burst counts when it reached quiescence, distinct by (max, burst shape = event letters with the receiver's role before the burst, receivers waiting 0/1/2+, stub mode). Stress part: streams of back-to-back envelopes against self-finishing transfers, distinct by (max, stream seed)."
 	e.R.SetExtra("histories_run", atomic.LoadInt64(&x.runs))
 	e.R.SetExtra("events_executed_and_checked", atomic.LoadInt64(&x.events))
 	e.R.SetExtra("stub_transfer_starts_observed", atomic.LoadInt64(&x.starts))
@@ -1696,6 +1968,28 @@ func runC12(e *Env) {
 	e.R.SetExtra("diagnostic_last_TransferQueued_position_not_current", atomic.LoadInt64(&x.tqStale))
 	e.R.SetExtra("diagnostic_TransferStart_field_mismatch", atomic.LoadInt64(&x.tsBad))
 	e.R.SetExtra("diagnostic_TransferQueued_field_mismatch", atomic.LoadInt64(&x.tqBad))
+	e.R.SetExtra("exhaustive_bounds_histories_run_by_stub_mode", exhMode)
+	e.R.SetExtra("stub_transfers_that_registered_a_connection_closer", atomic.LoadInt64(&x.closers))
+	e.R.SetExtra("stub_transfers_whose_closer_was_invoked_by_the_scheduler", atomic.LoadInt64(&x.closersCalled))
+	e.R.SetExtra("stub_transfers_that_unwound_on_their_own_after_cancellation", atomic.LoadInt64(&x.autoRet))
+	e.R.SetExtra("concurrent_histories_run", cst.Cases)
+	e.R.SetExtra("concurrent_bursts_checked", cst.Bursts)
+	e.R.SetExtra("concurrent_bursts_fully_overlapped_per_call_return_records", cst.Overlapped)
+	e.R.SetExtra("concurrent_histories_cut_because_step_not_executable", cst.Truncated)
+	e.R.SetExtra("concurrent_leaves_of_a_served_receiver_with_self_unwinding_transfer", cst.ConcLeaves)
+	e.R.SetExtra("concurrent_histories_by_family_and_stub_mode", cst.ByFamily)
+	e.R.SetExtra("concurrent_bursts_by_gomaxprocs", cst.ByProcs)
+	e.R.SetExtra("concurrent_bursts_by_schedule_class", cst.ByOpt)
+	e.R.SetExtra("concurrent_max_live_transfers_by_max_receivers", map[string]int32{"1": cst.MaxLive[1], "2": cst.MaxLive[2], "3": cst.MaxLive[3]})
+	e.R.SetExtra("concurrent_refuted_steps_by_key", cst.FailCount)
+	e.R.SetExtra("concurrent_refuted_steps_by_schedule_class", cst.FailByOpt)
+	e.R.SetExtra("stress_streams", sst.Streams)
+	e.R.SetExtra("stress_envelopes_delivered", sst.Envelopes)
+	e.R.SetExtra("stress_transfer_starts", sst.Starts)
+	e.R.SetExtra("stress_leaves", map[string]int64{"all": sst.Leaves, "found_a_running_transfer_of_the_leaver": sst.LeavesOfRun, "connection_closers_invoked": sst.ClosersHit})
+	e.R.SetExtra("stress_cleanup_ticks", sst.Ticks)
+	e.R.SetExtra("stress_max_live_transfers_counted_at_a_stub_start_by_max_receivers", map[string]int32{"1": sst.MaxLive[1], "2": sst.MaxLive[2], "3": sst.MaxLive[3]})
+	e.R.SetExtra("stress_streams_refuted_by_key", sst.FailCount)
 	e.R.SetExtra("watchdog_hits_retried", atomic.LoadInt64(&c12WatchdogRetries))
 	e.R.SetExtra("wall_s_harness", time.Since(t0).Seconds())
 
@@ -1710,5 +2004,24 @@ func runC12(e *Env) {
 	}
 	for _, b := range bounds {
 		e.R.Require(exh[fmt.Sprintf("max%d-len%d", b.Max, b.Len)] > 0, "exhaustive part ran nothing")
+	}
+	for k, n := range exhMode {
+		e.R.Require(n > 0, "stub-mode enumeration "+k+" ran nothing")
+	}
+	e.R.Require(atomic.LoadInt64(&x.closers) > 0 && atomic.LoadInt64(&x.closersCalled) > 0, "no stub transfer registered a connection closer that the scheduler then invoked (leave of a receiver served by a transfer past connect_ok never exercised)")
+	e.R.Require(atomic.LoadInt64(&x.autoRet) > 0, "no self-unwinding stub transfer was ever cancelled")
+	e.R.Require(cst.Bursts >= int64(nConc/4), fmt.Sprintf("only %d concurrent bursts reached quiescence", cst.Bursts))
+	e.R.Require(cst.Overlapped*10 >= cst.Bursts, fmt.Sprintf("only %d of %d bursts overlapped completely per the call/return records: the deliveries were not concurrent", cst.Overlapped, cst.Bursts))
+	e.R.Require(cst.ConcLeaves > 0, "no leave of a served receiver with a self-unwinding transfer")
+	for m := 1; m <= 3; m++ {
+		e.R.Require(cst.MaxLive[m] >= int32(m), fmt.Sprintf("concurrent part, max-receivers=%d: never saw %d transfers running at once", m, m))
+	}
+	e.R.Require(sst.Streams >= int64(nStreams*3/4) && sst.Starts >= sst.Streams*100, fmt.Sprintf("stress part: %d of %d streams reached a verdict, %d transfer starts", sst.Streams, nStreams, sst.Starts))
+	e.R.Require(sst.LeavesOfRun > 0, "stress part: no leave ever found a running transfer of the leaver")
+	for m := 1; m <= 3; m++ {
+		e.R.Require(sst.MaxLive[m] >= int32(m), fmt.Sprintf("stress part, max-receivers=%d: never saw %d transfers running at once", m, m))
+	}
+	for _, md := range []string{"told", "closer", "real-like"} {
+		e.R.Require(cst.ByFamily["full-house/stub="+md] > 0 && cst.ByFamily["random/stub="+md] > 0, "concurrent part did not run stub mode "+md)
 	}
 }
